@@ -307,6 +307,7 @@ fn monotone(case_seed: u64, r: &mut Report) {
     let mut prev_inc: BTreeMap<String, u64> = BTreeMap::new();
     let steps = 10 + rng.below(40);
     let mut events = 0u64;
+    let mut delivered_now: Vec<(u8, u64)> = Vec::new();
     for step in 0..steps {
         let m = rng.below(members as usize) as u8;
         let op = rng.below(8);
@@ -348,6 +349,7 @@ fn monotone(case_seed: u64, r: &mut Report) {
                 }
                 desc = format!("merge {:?}{}", batch, sender_member.map(|m| format!(" sent by {}", mname(m))).unwrap_or_default());
                 let states: Vec<GossipNodeState> = batch.iter().map(to_state).collect();
+                delivered_now = batch.iter().map(|u| (u.member, u.inc)).collect();
                 if use_mgr {
                     let sender = sender_member.map(mname).unwrap_or_else(|| "obs".to_string());
                     mgr.handle_gossip(GossipMessage::Sync { sender, states, sender_time: rng.below(40) as u64 });
@@ -427,6 +429,7 @@ fn monotone(case_seed: u64, r: &mut Report) {
         }
         trace.push(desc);
         events += 1;
+        let delivered: Vec<(u8, u64)> = std::mem::take(&mut delivered_now);
         let (time, states): (u64, Vec<GossipNodeState>) = if use_mgr {
             (mgr.lamport_time(), mgr.all_states())
         } else {
@@ -451,6 +454,19 @@ fn monotone(case_seed: u64, r: &mut Report) {
                 bad = Some((
                     "monotone:failed-above-announced-incarnation".into(),
                     format!("{} recorded Failed at incarnation {} but announced at most {}", s.node_id, s.incarnation, ann[idx]),
+                ));
+            }
+        }
+        // an update delivered in this call carries an incarnation the replica has now seen: whatever
+        // else the call did (merge order inside the batch, marking the sender alive), the member
+        // cannot be recorded below it afterwards - incarnations only move forward
+        for (mm, inc) in &delivered {
+            let rec = states.iter().find(|s| s.node_id == mname(*mm)).map(|s| s.incarnation);
+            r.count("monotone_delivered_incarnations_checked", 1);
+            if rec.map_or(true, |x| x < *inc) {
+                bad = Some((
+                    "monotone:delivered-incarnation-not-retained".into(),
+                    format!("{} was delivered at incarnation {} in this call but is recorded at {:?} after it", mname(*mm), inc, rec),
                 ));
             }
         }
